@@ -19,6 +19,9 @@ TREES = [
     "super::a::{b, c}", "r#fn::b", "a::r#type", "a::{b::*, c::*}", "b::a", "b::{a, c as d}",
     "a::b::c::d", "a::{b::c::d, b::c::e}", "std::fmt::{self, Display}", "std::fmt",
     "std::{fmt, io}", "std::io::{self, Read as R}", "core::fmt::*",
+    # aliases on the path keywords
+    "crate as root", "super as parent", "super::super as gp", "{crate as k, std::fmt as f}",
+    "self::a as b", "crate::a as c",
 ]
 VIS = ["", "pub ", "pub(crate) ", "pub(super) ", "pub(in crate::m) ", "pub(in crate::m::n) ",
        "pub(in super::super) "]
